@@ -30,8 +30,8 @@ Definition sg_compat (ispg : Z) (n : v3) : bool :=
   | None => true
   end.
 Definition no_compat (ispg : Z) (n : v3) : bool := true.
-(* compatibility test in setup() before symmetrize_nondefault: none in the original code *)
-Definition setup_compat := no_compat.
+(* compatibility test in setup() before symmetrize_nondefault (check_grid_factors; none in the original code) *)
+Definition setup_compat := sg_compat.
 
 Definition setup_sg := setup_gen setup_core setup_compat sgops.
 Definition setup_sg_orig := setup_gen setup_core_orig no_compat sgops.
